@@ -297,5 +297,24 @@ theorem tie_StaticCombinator_SetCore :
 theorem tie_DynamicCombinator_Set : Extracted.Kernels.When_DynamicCombinator_Set = Skeletons.When_DynamicCombinator_Set := rfl
 theorem tie_AtomicCounter_SubEqual : Extracted.Kernels.AtomicCounter_SubEqual = Skeletons.AtomicCounter_SubEqual := rfl
 theorem tie_Helper_DecRef : Extracted.Kernels.Helper_DecRef = Skeletons.Helper_DecRef := rfl
+theorem tie_GetCallbackHelper :
+    Extracted.Kernels.When_StaticCombinator_GetCallbackHelper = Skeletons.When_StaticCombinator_GetCallbackHelper := rfl
+theorem tie_StaticCombinator_InitImpl :
+    Extracted.Kernels.When_StaticCombinator_InitImpl = Skeletons.When_StaticCombinator_InitImpl := rfl
+theorem tie_CombinatorCallback_Here : Extracted.Kernels.When_CombinatorCallback_Here = Skeletons.When_CombinatorCallback_Here := rfl
+theorem tie_SingleCombinator_Here : Extracted.Kernels.When_SingleCombinator_Here = Skeletons.When_SingleCombinator_Here := rfl
+theorem tie_TranslateIndexImpl_Index :
+    Extracted.Kernels.TypeTraits_TranslateIndexImpl_Index = Skeletons.TypeTraits_TranslateIndexImpl_Index := rfl
+theorem tie_IndexOf_Index : Extracted.Kernels.TypeTraits_IndexOf_Index = Skeletons.TypeTraits_IndexOf_Index := rfl
+/-! whole-declaration source ties (comments and white space dropped): policy constants, callback tuples and node lookup
+    (`translate_index_v` vs `index_of_v`), the alias that selects the combinator type, member initialisers, metafunctions -/
+theorem tie_src_when_hpp : Extracted.Kernels.WhenSrc_when_hpp = Skeletons.WhenSrc_when_hpp := rfl
+theorem tie_src_combinator_strategy_hpp :
+    Extracted.Kernels.WhenSrc_combinator_strategy_hpp = Skeletons.WhenSrc_combinator_strategy_hpp := rfl
+theorem tie_src_fail_policy_hpp : Extracted.Kernels.WhenSrc_fail_policy_hpp = Skeletons.WhenSrc_fail_policy_hpp := rfl
+theorem tie_src_type_traits_inputs : Extracted.Kernels.WhenSrc_type_traits_inputs = Skeletons.WhenSrc_type_traits_inputs := rfl
+theorem tie_src_type_traits_tuples : Extracted.Kernels.WhenSrc_type_traits_tuples = Skeletons.WhenSrc_type_traits_tuples := rfl
+theorem tie_src_any_hpp : Extracted.Kernels.WhenSrc_any_hpp = Skeletons.WhenSrc_any_hpp := rfl
+theorem tie_src_when_any_hpp : Extracted.Kernels.WhenSrc_when_any_hpp = Skeletons.WhenSrc_when_any_hpp := rfl
 
 end Yaclib.Props.C10.Tie
